@@ -34,3 +34,32 @@ package xmldsig
 //@   on call (x509tools.EcdsaSignature).PackFixed(_, _) ret (b, e): packs = packs + 1
 //@   before call (*encoding/base64.Encoding).EncodeToString(_, b): assert @ecdsa_signature_value_is_two_fixed_width_numbers \
 //@        istype(pubv, *ecdsa.PublicKey) ==> packs == 1 && len(b) == 2 * ((curveBits + 7) / 8)
+
+//@ macro attrRank(a etree.Attr) int = ite(a.Space == "" && a.Key == "xmlns", 0, ite(a.Space == "xmlns", 1, 2))
+//@ macro attrLess(x etree.Attr, y etree.Attr) bool = attrRank(x) < attrRank(y) || (attrRank(x) == attrRank(y) && (x.Space < y.Space || (x.Space == y.Space && x.Key < y.Key)))
+//@
+//@ func walkAttributes$1
+//@   property C19
+//@   requires 0 <= i && i < len(elem.Attr) && 0 <= j && j < len(elem.Attr)
+//@   ensures @canonical_attribute_order_is_a_lexicographic_key_order \
+//@        !(elem.Attr[i].Space == elem.Attr[j].Space && elem.Attr[i].Key == elem.Attr[j].Key) ==> ret0 == attrLess(elem.Attr[i], elem.Attr[j])
+//@   modifies nothing
+//@
+//@ func Verify
+//@   property C19 C02
+//@   ghost removed bool = false
+//@   ghost canons int = 0
+//@   ghost siDigest []byte = nil
+//@   ghost refDigest []byte = nil
+//@   ghost sigOK bool = false
+//@   ghost refOK bool = false
+//@   on call (*etree.Element).RemoveChild(_, c) ret (r): removed = removed || c == iface(sigEl)
+//@   before call hashCanon(el, h): assert @signed_info_is_canonicalised_inside_its_document canons == 0 ==> el == signedinfo && !removed && h == hash
+//@   before call hashCanon(el, h): assert @enveloped_reference_is_the_document_without_the_signature canons == 1 ==> el == reference && h == hash && \
+//@        (removed ==> el == root) && (sig.Reference.URI == "" ==> removed)
+//@   before call hashCanon(el, h): assert @two_digests canons <= 1
+//@   on call hashCanon(_, _) ret (d, e): siDigest = ite(canons == 0, d, siDigest); refDigest = ite(canons == 1, d, refDigest); canons = canons + 1
+//@   on call x509tools.Verify(k, h, d, s) ret (e): sigOK = sigOK || (e == nil && h == hash && sameslice(d, siDigest) && sameslice(s, sigv))
+//@   on call crypto/hmac.Equal(a, b) ret (r): refOK = (r && sameslice(b, refDigest) && sameslice(a, refGiven))
+//@   ensures @signature_value_and_reference_digest_both_checked ret1 == nil ==> sigOK && refOK && canons == 2
+//@   loop 1 sig "for _, cert := range certs" invariant -1 <= rangeindex && rangeindex < len(certs) && len(certs) > 0 && (rangeindex >= 0 && err == nil ==> sigOK) && canons == 1 && !removed && !refOK
